@@ -44,9 +44,17 @@ RenderW(word) ==
 
 HereBody(cmd) == TNL \o TB(cmd.n) \o TR(cmd.c) \o TS("EOF") \o TNL
 
+Closures(n) == (IF n % 2 = 1 THEN TS(" <&-") ELSE <<>>)
+               \o (IF (n \div 2) % 2 = 1 THEN TS(" >&-") ELSE <<>>)
+               \o (IF (n \div 4) % 2 = 1 THEN TS(" 2>&-") ELSE <<>>)
+
+RECURSIVE Render(_)
 Render(sc) ==
   LET a == sc.ch[1] IN
-  CASE sc.k = "sink" ->
+  CASE sc.k = "env" ->
+         IF sc.flag THEN TS("exec") \o Closures(sc.n) \o TNL \o Render(a)
+         ELSE TS("{ ") \o Render(a) \o TNL \o TS("}") \o Closures(sc.n)
+    [] sc.k = "sink" ->
          IF a.k = "here"
          THEN (IF sc.flag THEN TS("csink t 0 <<'EOF'") ELSE RenderC(a) \o TS(" | csink t 0"))
               \o HereBody(a)
@@ -56,10 +64,7 @@ Render(sc) ==
     [] sc.k = "arg"  -> TS("val t ") \o RenderW(a) \o TS(" 0")
     [] sc.k = "varu" -> TS("v=") \o RenderW(a) \o TS("; valu t \"$v\" 0")
     [] sc.k = "closed" ->
-         TS("{ ") \o RenderC(a) \o TS(" >&3; } 3>/tmp/f")
-         \o (IF sc.n % 2 = 1 THEN TS(" <&-") ELSE <<>>)
-         \o (IF (sc.n \div 2) % 2 = 1 THEN TS(" >&-") ELSE <<>>)
-         \o (IF (sc.n \div 4) % 2 = 1 THEN TS(" 2>&-") ELSE <<>>)
+         TS("{ ") \o RenderC(a) \o TS(" >&3; } 3>/tmp/f") \o Closures(sc.n)
          \o TS("; csink t 0 < /tmp/f")
     [] sc.k = "varhere" -> TS("v=$(") \o RenderC(a) \o HereBody(a) \o TS("); val t \"$v\" 0")
     [] sc.k = "hword" -> TS("csink t 0 <<EOF") \o TNL \o TS("$(") \o RenderC(a.ch[1]) \o TS(")")
@@ -153,7 +158,26 @@ Invalids ==
   \cup { FSink(CPipe(CSeq(E(n, T0), CEmitB(<<LX>> \o m \o <<NL>>)), fs), FALSE) :
             m \in Marks, n \in {0, 1025}, fs \in FewFilterSeqs }
 
-Scenarios == Closeds \cup Invalids \cup Sinks \cup Files \cup Vars \cup Nested \cup Heres \cup Reads \cup Pars
+\* every kind of scenario (command substitutions, nested ones, pipelines,
+\* here-documents, read) with every non-empty subset of {0, 1, 2} closed
+EnvSizes == {1, 513, 2049}
+EnvInner ==
+  { FVar(WSub(E(n, t))) : n \in {0, 17, 1025, 4096} \cup EnvSizes, t \in {T0, <<NL, NL>>, <<LX, NL>>} }
+  \cup { FVar(WSub(CPipe(E(n, <<NL, NL>>), fs))) : n \in EnvSizes, fs \in {<<"cat">>, <<"scat 7", "cat">>} }
+  \cup { FVar(WSub(CEmit(0, WSub(E(n, t))))) : n \in EnvSizes, t \in {<<NL, NL>>, <<NL, LX>>} }
+  \cup { FVar(WSub(CEmit(n, WSub(E(0, <<LX, NL>>))))) : n \in EnvSizes }
+  \cup { FArg(WSub(E(n, <<LX, NL>>))) : n \in EnvSizes }
+  \cup { FSink(CPipe(E(n, <<LX, NL>>), fs), FALSE) : n \in EnvSizes, fs \in {<<>>, <<"cat">>, <<"scat 7", "cat">>} }
+  \cup { FSink(CHere(n, <<LX, NL>>, <<>>), TRUE) : n \in EnvSizes }
+  \cup { FSink(CHere(n, <<NL>>, <<"cat">>), FALSE) : n \in EnvSizes }
+  \cup { FVarHere(CHere(n, <<NL, NL>>, <<>>)) : n \in EnvSizes }
+  \cup { FHWord(WSub(E(n, <<NL, NL>>))) : n \in EnvSizes }
+  \cup { FRead(CPipe(E(n, T0), <<>>), r) : n \in {513, 2049}, r \in BOOLEAN }
+  \cup { FFile(E(n, <<NL>>)) : n \in {513} }
+Envs == { FEnv(sc, code, ex) : sc \in EnvInner, code \in 1 .. 7, ex \in (IF Q THEN {FALSE} ELSE BOOLEAN) }
+        \cup { FEnv(sc, code, TRUE) : sc \in {x \in EnvInner : x.k \in {"var", "varhere"}}, code \in {2, 3, 6} }
+
+Scenarios == Envs \cup Closeds \cup Invalids \cup Sinks \cup Files \cup Vars \cup Nested \cup Heres \cup Reads \cup Pars
 
 \* only terms whose meaning is defined are generated
 Defined(sc) == \A o \in Expect(sc) : o.off >= 0
